@@ -650,6 +650,46 @@ func c20Protocol(p *core.Prog, r *core.Report) {
 				"assuming errCode == ErrCodeProtocol no return avoids connectionError", "a frame with code ErrCodeProtocol can be handled without closing the connection (an extra condition on the frame decides): "+p.TrailString(res))
 		}
 	}
+	// a relay channel's own outgoing calls: a frame whose id the relayer does
+	// not know is offered to the connection's outbound exchanges whatever its
+	// type - the system error answering the relay's own call is such a frame
+	if f := mustFunc(p, r, "", "Relayer", "Relay"); f != nil {
+		n := 0
+		for _, b := range f.Blocks {
+			ifi, ok := b.Instrs[len(b.Instrs)-1].(*ssa.If)
+			if !ok {
+				continue
+			}
+			bo, ok := ifi.Cond.(*ssa.BinOp)
+			if !ok || (bo.Op != token.EQL && bo.Op != token.NEQ) || !(loadsGlobal(bo.X, "errUnknownID") || loadsGlobal(bo.Y, "errUnknownID")) {
+				continue
+			}
+			n++
+			unknown := b.Succs[0]
+			if bo.Op == token.NEQ {
+				unknown = b.Succs[1]
+			}
+			isFwd := func(i ssa.Instruction) bool {
+				_, is := core.IsCall(i, "messageExchangeSet.forwardPeerFrame")
+				return is
+			}
+			first := unknown.Instrs[0]
+			found := false
+			var trail string
+			if !isFwd(first) {
+				res := core.ReachAvoiding(f, first, core.IsReturn, isFwd, nil)
+				found, trail = res.Found, p.TrailString(res)
+				if core.IsReturn(first) {
+					found = true
+				}
+			}
+			r.Check(!found, "C20-R4", fname(f), "frames with an id unknown to the relayer are offered to the connection's own calls, whatever their type", p.Pos(ifi.Pos()),
+				"every path after errUnknownID passes outbound.forwardPeerFrame", "some frames with an unknown id (e.g. error frames) are dropped without being offered to the relay channel's own outgoing calls: the caller gets a timeout instead of the handler's system error: "+trail)
+		}
+		if n == 0 {
+			r.Errorf("Relayer.Relay: no test of errUnknownID found")
+		}
+	}
 	// dispatch: error frames go to handleError without relay, to the relayer with relay
 	dm := p.NewDomain("", "messageType")
 	if f := mustFunc(p, r, "", "Connection", "handleFrameNoRelay"); f != nil {
@@ -720,6 +760,36 @@ func c20AppFlag(p *core.Prog, r *core.Report) {
 			}
 		})
 		r.Check(ok, "C20-R5", fname(f), "SetApplicationError sets the flag", p.Pos(f.Pos()), "applicationError = true", "SetApplicationError no longer sets the flag")
+		// the flag travels in the header of the first response fragment, which
+		// is built when arg2 is started: the flag can be set (with a nil result)
+		// only while the writer has not passed the pre-arg2 state
+		if dw := p.NewDomain("", "reqResWriterState"); dw != nil {
+			pre2 := dw.Max(dw.OfName("reqResWriterPreArg2"))
+			core.EachInstr(f, func(i ssa.Instruction) {
+				st, isSt := i.(*ssa.Store)
+				if !isSt {
+					return
+				}
+				fld := core.AddrField(st.Addr)
+				if fld == nil || fld.Name() != "applicationError" {
+					return
+				}
+				set := dw.Declared()
+				for _, c := range factsAt(st.Block()).cmps {
+					x, y, op := c.X, c.Y, c.Op
+					if _, isC := x.(*ssa.Const); isC {
+						x, y = y, x
+						op = mirror(op)
+					}
+					k, isK := core.ConstInt(y)
+					if fl := core.LoadedField(x); isK && fl != nil && fl.Name() == "state" {
+						set = dw.RefineConst(set, op, k)
+					}
+				}
+				r.Check(dw.Max(set) <= pre2, "C20-R5", fname(f), "the flag is accepted only before the response header is built", p.Pos(st.Pos()),
+					"states admitted to the store: "+dw.String(set), "SetApplicationError accepts the flag in "+dw.String(set)+": after arg2 was started the header already says OK, the handler is told nil and the caller never sees the flag")
+			})
+		}
 	}
 	if f := mustFunc(p, r, "", "OutboundCallResponse", "ApplicationError"); f != nil {
 		ok := false
